@@ -7,6 +7,20 @@ HERE = os.path.dirname(os.path.dirname(os.path.abspath(__file__)))
 
 # id -> (level category, technique, level text, level note, design ref)
 CHECKS = {
+    'C03': ('exploration', 'return/exception observer on PortsCfg, match() and Builder.build decided by a three-valued reference matcher',
+            'Held on the enumerated and sampled configurations of the run; per side the selection pairs over a small universe are '
+            'enumerated exhaustively at match and build level, provides x requires products and larger port sets are sampled.',
+            'Reference matcher vlib/refcfg.py written from the property text; open cases are UNSPECIFIED and accept any non-internal outcome.',
+            'DESIGN.md section 3 C03'),
+    'C08': ('exploration', 'digest comparison across child interpreters (PYTHONHASHSEED x set construction order x passes) + independent MD5',
+            'Held on the executions of the run: every case built in 8 (quick) / 64 (thorough) child interpreters, two passes each.',
+            'Equal inputs = same JSON document and configuration encoding; the children import /repo/src.',
+            'DESIGN.md section 3 C08'),
+    'C13': ('fault_enumeration', 'outcome classifier on tracebacks over valid builds and every applicable single fault',
+            'Held on the builds of the run: each generated model/configuration once valid and once per listed single fault; '
+            'INTERNAL exceptions, accepted faults, refused valid inputs and partial file sets refute.',
+            'Deliberate TypeError/ValueError raised by dznpy with a message count as diagnosed; unlisted faults are not generated.',
+            'DESIGN.md section 3 C13'),
     'C17': ('exploration', 'reference-model monitor + class invariant wrapped onto TextBlock at run time',
             'Held on the generated contents of the run: every TextBlock/chunk/cond_chunk/trim result equals an independent '
             'flattener and line splitter; the no-line-break invariant is evaluated after every public TextBlock call.',
